@@ -118,14 +118,16 @@ impl Timestamp {
                 self.0.to_offset(time::UtcOffset::UTC).format_into(w, RFC1123)?;
             }
             TimestampFormat::EpochSeconds => {
+                // exact decimal: whole seconds, then the fraction without trailing zeros
                 let val = self.0.unix_timestamp_nanos();
-
-                #[allow(clippy::cast_precision_loss)] // FIXME: accurate conversion?
-                {
-                    let secs = (val / 1_000_000_000) as f64;
-                    let nanos = (val % 1_000_000_000) as f64 / 1_000_000_000.0;
-                    let ts = secs + nanos;
-                    write!(w, "{ts}")?;
+                let sign = if val < 0 { "-" } else { "" };
+                let secs = val.unsigned_abs() / 1_000_000_000;
+                let nanos = val.unsigned_abs() % 1_000_000_000;
+                if nanos == 0 {
+                    write!(w, "{sign}{secs}")?;
+                } else {
+                    let frac = format!("{nanos:09}");
+                    write!(w, "{sign}{secs}.{}", frac.trim_end_matches('0'))?;
                 }
             }
         }
